@@ -3,13 +3,13 @@ import BreezyVerif.Model.C43
 /-
 C43 driver.
 
-  up <mode inc|full> <variant A|C|AS|CS: renames as found / children first; S = robust symlinks> <ign> <remote> <tree> <delta>
+  up <mode inc|full> <variant A|C followed by optional S, K: renames as found / children first; S = robust symlinks; K = kind change deletes at the new path> <ign> <remote> <tree> <delta>
      ign    = `,`-joined plain names (`-` = none)
      remote = `;`-joined entries, parents first: `<path>|f|<content hex>|<T|F>`, `<path>|l|<target>`, `<path>|d`
               (path = components joined by `/`; `-` = empty directory)
      tree   = the same encoding, in `iter_entries_by_dir` order (without the root)
      delta  = `<removed>&<renamed>&<kind-changed>&<added>&<modified>`, each `,`-joined (`-` = none):
-              removed `<path>:<k>`, renamed `<old>:<new>:<T|F changed content>`, kind-changed `<path>:<k0>:<k1>`,
+              removed `<path>:<k>`, renamed `<old>:<new>:<T|F changed content>`, kind-changed `<old path>:<path>:<k0>:<k1>`,
               added / modified `<path>`;  k = f|d|l
   reply: `<error|~> <remote afterwards, same encoding, sorted>`
 -/
@@ -72,7 +72,7 @@ def parseDelta (s : String) : Option Delta :=
       | [a, b, c] => do pure (⟨← parsePath a, ← parsePath b, ← parseBool c⟩ : Renamed)
       | _ => none
     let kindChanged ← parseGroup kc fun x => match x.splitOn ":" with
-      | [p, k0, k1] => do pure (⟨← parsePath p, ← parseKind k0, ← parseKind k1⟩ : KindChanged)
+      | [o, p, k0, k1] => do pure (⟨← parsePath o, ← parsePath p, ← parseKind k0, ← parseKind k1⟩ : KindChanged)
       | _ => none
     let added ← parseGroup ad parsePath
     let modified ← parseGroup md parsePath
@@ -81,10 +81,11 @@ def parseDelta (s : String) : Option Delta :=
 
 def handle : List String → String
   | ["up", mode, v, ign, remote, tree, delta] =>
-    match (match v with
-            | "A" => some ({} : Cfg) | "C" => some { renames := .childrenFirst }
-            | "AS" => some { robustSymlinks := true } | "CS" => some { renames := .childrenFirst, robustSymlinks := true }
-            | _ => none),
+    match (if v.toList.all (fun ch => ch == 'A' || ch == 'C' || ch == 'S' || ch == 'K') && v.length > 0
+            && (v.toList.head? == some 'A' || v.toList.head? == some 'C') then
+            some ({ renames := if v.toList.head? == some 'C' then .childrenFirst else .asFound,
+                    robustSymlinks := v.toList.contains 'S', kindChangeAtNew := v.toList.contains 'K' } : Cfg)
+          else none),
           (parseTree remote).bind buildFS, parseTree tree, parseDelta delta with
     | some v, some root, some t, some d =>
       let names := splitList ign
